@@ -2,6 +2,7 @@
 from .render_block import *
 from .render_kitty import *
 from .render_iterm2 import *
+from . import C12 as _C12   # noqa: F401  (who determines the terminal identity the iterm2 renders rely on, and for which class)
 from . import C04 as _C04   # noqa: F401  (the AUTO rule whichever argument carries it: advertised height = rendered height for dynamic sizes)
 
 TRUSTED = ["terminal model of DESIGN appendix A (pyvc/tstr.py VT): the real control-sequence templates are lexed character by character",
